@@ -1,6 +1,7 @@
 import Receptor.Drive.Util
 import Receptor.Model.Forward
 import Receptor.Model.Firewall
+import Receptor.Drive.Fw
 import Receptor.Generated.Facts
 namespace Receptor.Drive.Pkt
 open Lean Receptor.Drive Receptor.Forward
@@ -49,27 +50,29 @@ structure NodeSpec where
 def lookup (l : List (Bytes × Bytes)) (k : Bytes) : Option Bytes := (l.find? fun x => x.1 == k).map (·.2)
 
 open Receptor.Firewall in
-def getRules (j : Json) : Except String (List Rule) := do
+def getRules (strict : Bool) (j : Json) : Except String (List Rule) := do
   let rs ← getArr j "rules"
   let kvss ← rs.mapM fun r => do
     let act ← getStr r "action"
-    let fields ← (← r.getObjVal? "fields").getObj?
-    let mut kvs : List KV := [{ key := kAction, val := .str (act.toUTF8.toList.map (·.toNat)) }]
-    for (k, v) in fields.toList do
-      match fromHex (← v.getStr?) with
-      | some b => kvs := kvs ++ [{ key := k.toUTF8.toList.map (·.toNat), val := .str b }]
-      | none => throw "bad hex"
-    pure kvs
-  match parseRules true kvss with
+    let fields ← getArr r "fields"
+    let kvs ← fields.mapM fun f => do
+      let k ← getStr f "k"
+      let v ← getHex f "v"
+      let ast ← Receptor.Drive.Fw.getAst f
+      pure ({ key := k.toUTF8.toList.map (·.toNat), val := .str v, compiled := ast } : KV)
+    pure (({ key := kAction, val := .str (act.toUTF8.toList.map (·.toNat)) } : KV) :: kvs)
+  match parseRules strict kvss with
   | some rules => pure rules
   | none => throw "pkt rules must parse"
 
 open Receptor.Firewall in
-def fwOf (rules : List Rule) : Node → Svc → Node → Svc → FwResult := fun fn fs tn ts =>
-  match evalRules .grouped rules { fromNode := fn, fromSvc := fs, toNode := tn, toSvc := ts } with
+def fwOf (w : Wrap) (rules : List Rule) : Node → Svc → Node → Svc → FwResult := fun fn fs tn ts =>
+  match evalRules w rules { fromNode := fn, fromSvc := fs, toNode := tn, toSvc := ts } with
   | .accept => .accept | .reject => .reject | .drop => .drop
 
-def getNode (j : Json) : Except String NodeSpec := do
+/-- `spec = true`: the specification's reading of the rules (strict parse, full match);
+otherwise what the regenerated facts say the source does. -/
+def getNode (spec : Bool) (j : Json) : Except String NodeSpec := do
   let id ← getHex j "id"
   let routesObj ← (← j.getObjVal? "routes").getObj?
   let routes ← routesObj.toList.mapM fun (k, v) => do
@@ -78,12 +81,14 @@ def getNode (j : Json) : Except String NodeSpec := do
     | _, _ => throw "bad hex in routes"
   let conns ← getHexList j "conns"
   let listeners ← getHexList j "listeners"
-  let rules ← getRules j
+  let strict := spec || Receptor.Drive.Fw.strictFact
+  let w := if spec then Receptor.Firewall.Wrap.grouped else (Receptor.Drive.Fw.wrapFact.getD .grouped)
+  let rules ← getRules strict j
   let maxHops ← getNat j "maxhops"
   pure { id := id,
          cfg := { route := lookup routes, conn := fun n => conns.contains n,
                   listener := fun s => listeners.contains s && s != pingSvc && s != unreachSvc,
-                  fw := fwOf rules, maxHops := maxHops } }
+                  fw := fwOf w rules, maxHops := maxHops } }
 
 def errStr : Err → String
   | .serviceUnknown => "service unknown" | .noRoute => "no route" | .noConn => "no conn" | .badNotice => "bad notice"
@@ -154,8 +159,19 @@ def isData (src : Node) (p0 : Packet) (j : Json) : Bool :=
     pure (q.fromNode == src && q.fromSvc == p0.fromSvc && q.toNode == p0.toNode && q.toSvc == p0.toSvc
           && q.body == p0.body)).toOption.getD false
 
+/-- order-insensitive comparison of two observations (the `_set` lists are multisets) -/
+partial def sortJson : Json → Json
+  | Json.arr xs => Json.arr ((xs.map sortJson).qsort fun a b => a.compress < b.compress)
+  | Json.obj kvs => Json.mkObj (kvs.toList.map fun (k, v) => (k, sortJson v))
+  | j => j
+def canonEq (a b : Json) : Bool := (sortJson a).compress == (sortJson b).compress
+
+def hasRules (a : Json) : Bool :=
+  ((getArr a "nodes").toOption.getD []).any fun n => !((getArr n "rules").toOption.getD []).isEmpty
+
 def handle (op : String) (a r : Json) : Except String Reply := do
-  let nodes ← (← getArr a "nodes").mapM getNode
+  let nodes ← (← getArr a "nodes").mapM (getNode false)
+  let specNodes ← (← getArr a "nodes").mapM (getNode true)
   let atN ← getHex a "at"
   let p ← getPkt (← a.getObjVal? "p")
   let H := hopsOfFacts
@@ -168,7 +184,18 @@ def handle (op : String) (a r : Json) : Except String Reply := do
         pure { m := jObj [("unmodelled", Json.str "diverges")] }
       else
         let (o, _, ret) := runAt H me.id me.cfg p
-        pure { m := o.json ret }
+        if hasRules a then
+          -- C12 oracle: the implementation's observation must be what the rules dictate under the
+          -- specification's reading (first matching rule, full-match regex) with the standard hop rule
+          match specNodes.find? fun n => n.id == atN with
+          | none => pure { m := o.json ret }
+          | some sme =>
+            let (so, _, sret) := runAt stdHops sme.id sme.cfg p
+            let holds := canonEq r (so.json sret)
+            pure { m := o.json ret, prop := some holds,
+                   why := if holds then "" else "packet not treated as the first matching rule dictates",
+                   sig := if holds then "" else "C12/eval/first-match-full-regex" }
+        else pure { m := o.json ret }
     | "walk" =>
       let (o, tx, ret) := runAt H me.id me.cfg p
       let (o2, exhausted) := pump H nodes 3000 tx o
